@@ -204,3 +204,21 @@ func Protect(f func()) (pan string) {
 	f()
 	return ""
 }
+
+// Guard runs f and reports a budget abort (termination oracle) or a panic instead of unwinding.
+func Guard(f func()) (abort, pan string) {
+	defer func() {
+		if r := recover(); r != nil {
+			if b, ok := r.(BudgetExceeded); ok {
+				abort = b.Msg
+				return
+			}
+			pan = fmt.Sprint(r)
+			if pan == "" {
+				pan = "panic"
+			}
+		}
+	}()
+	f()
+	return
+}
